@@ -38,6 +38,9 @@ RpcX(v, k, hs, x) == [name |-> "M", verb |-> v, fields |-> FieldsFor(v, x), fdef
                   query |-> <<[field |-> "q", name |-> "q", required |-> FALSE], [field |-> "rq", name |-> "rq", required |-> TRUE]>>,
                   hdrs |-> hs, group |-> "", ord |-> 0]
 Rpc(v, k, hs) == RpcX(v, k, hs, FALSE)
+\* the same RPC with query parameters whose URL names differ from the field names
+\* ((sebuf.http.query).name): violations still name the FIELD
+Renamed(r) == [r EXCEPT !.query = <<[field |-> "q", name |-> "query-q", required |-> FALSE], [field |-> "rq", name |-> "r_q", required |-> TRUE]>>]
 ZeroOf(r) == [i \in DOMAIN r.fields |-> [k |-> r.fields[i], v |-> "Z_" \o r.fields[i]]]
 
 Url(pc_, qc, rqc) == <<[field |-> "p", loc |-> "path", cls |-> pc_, tok |-> "U_p"],
@@ -97,6 +100,8 @@ C02ShapeRequests ==
       v \in Verbs, qs \in QShapes, b \in QCls, sh \in BodyShapes, ct \in {"json", "proto"} }
   \cup { Mk(RpcShape(v, "int32", "one", "opt"), <<>>, Url(a, "good", "good"), Body(sh, ct), <<>>, OkHandler, NoHook) :
       v \in Verbs, a \in PCls, sh \in BodyShapes, ct \in {"json", "proto"} }
+  \cup { Mk(Renamed(Rpc(v, "int32", <<>>)), <<>>, Url("good", b, c), Body("others", ct), <<>>, OkHandler, NoHook) :
+      v \in Verbs, b \in QCls, c \in RQCls, ct \in {"json", "proto"} }
 
 (***************************************************************************)
 (* C09: declarations x overriding x value classes x body                   *)
@@ -178,7 +183,10 @@ SrcReq(src, ct, hk) ==
                [] src = "wrapped" -> [kind |-> "wrapped", msg |-> "", val |-> "CUSTOM", viol |-> <<>>]
                [] OTHER -> OkHandler
   IN Mk(RpcX("POST", "string", hs, TRUE), hv, url, bd, rv, h, hk)
+\* URL-binding violations of renamed query parameters (a malformed value, a missing required one)
+RenamedUrlReq(qc, rqc, ct) == LET r == SrcReq("url", ct, NoHook) IN [r EXCEPT !.rpc = Renamed(r.rpc), !.url = Url("good", qc, rqc)]
 C10Requests == { SrcReq(s, ct, hk) : s \in Sources, ct \in {"json", "proto", "octet"}, hk \in HooksN }
+                \cup { RenamedUrlReq(qc, rqc, ct) : qc \in {"good", "malformed", "oor"}, rqc \in {"good", "malformed", "missing_required"}, ct \in {"json", "proto"} }
 
 (***************************************************************************)
 (* C11: body class x content type x verb (the classes are expanded into    *)
